@@ -386,6 +386,22 @@ func main() {
 			runCase(out, next(), "any", q, []*lib.Op{{Code: "XN", N: qspec}}, []*lib.Val{grng.Mutant(q)})
 			both := lib.List(s, q)
 			runCase(out, next(), "any", both, []*lib.Op{{Code: "BL", Hint: 2}, {Code: "AV"}, {Code: "XN", N: sspec}, {Code: "AV"}, {Code: "XN", N: qspec}, {Code: "FI"}}, nil)
+			// nodes looked up from gendemo / bindnode containers, and keys their iterators yield, as arguments
+			for _, eng := range []string{"tgen", "tbind"} {
+				sty, qty := lib.TypedFamily()[6].Text(), lib.TypedFamily()[5].Text()
+				fld := lib.Msg3Fields[grng.Intn(3)]
+				fnode := &lib.NSpec{Tag: 'F', Eng: eng, Ty: sty, Key: fld, V: s}
+				runCase(out, next(), "any", fnode.Val(), []*lib.Op{{Code: "XN", N: fnode}}, nil)
+				runCase(out, next(), "int", fnode.Val(), []*lib.Op{{Code: "XN", N: fnode}}, nil)
+				if len(q.M) > 0 {
+					e := q.M[grng.Intn(len(q.M))]
+					vnode := &lib.NSpec{Tag: 'F', Eng: eng, Ty: qty, Key: e.K, V: q}
+					knode := &lib.NSpec{Tag: 'K', Eng: eng, Ty: qty, Key: e.K, V: q}
+					one := lib.Map(lib.Entry{K: e.K, V: e.V})
+					runCase(out, next(), "map", one, []*lib.Op{{Code: "BM", Hint: 1}, {Code: "AK"}, {Code: "XN", N: knode}, {Code: "AV"}, {Code: "XN", N: vnode}, {Code: "FI"}}, nil)
+					runCase(out, next(), "string", lib.Str(e.K), []*lib.Op{{Code: "XN", N: knode}}, nil)
+				}
+			}
 			inmap := lib.Map(lib.Entry{K: "s", V: s}, lib.Entry{K: "q", V: q})
 			runCase(out, next(), "map", inmap, []*lib.Op{{Code: "BM", Hint: 0}, {Code: "AE", Key: "s"}, {Code: "XN", N: sspec}, {Code: "AK"}, {Code: "X", V: lib.Str("q")}, {Code: "AV"}, {Code: "XN", N: qspec}, {Code: "FI"}}, nil)
 		}
